@@ -94,7 +94,7 @@ theorem pi_q_never_written {fp : FdlParams} (hfp : FpOk fp) {g g' : G} (hI : Inv
   cases op with
   | tx now hp => exact absurd (tx_keeps_images hfp hI h j).2 hne
   | reply a t =>
-    rcases reply_cases hI h with ⟨index, i, p, p', ev, _, _, hc, _, _, hspec, rfl⟩ | ⟨_, _, _, _, _, _, _, _, rfl⟩
+    rcases reply_cases hI h with ⟨index, i, p, p', ev, _, _, hc, _, _, hspec, rfl⟩ | ⟨_, _, _, _, _, _, _, rfl⟩
     · have hi := (curSlot_spec hc).2.2.1
       have hs := slot_of_set (q := p') hi (afterReply g.m index i p p' ev) rfl j
       exact absurd (hs.2.1 (rx_images hspec).1) hne
@@ -194,7 +194,7 @@ theorem pi_i_changes_only {fp : FdlParams} (hfp : FpOk fp) {g g' : G} (hI : Inv 
   cases op with
   | tx now hp => exact absurd (tx_keeps_images hfp hI h j).1 hne
   | reply a t =>
-    rcases reply_cases hI h with hdel | ⟨_, _, _, _, _, _, _, _, rfl⟩
+    rcases reply_cases hI h with hdel | ⟨_, _, _, _, _, _, _, rfl⟩
     · obtain ⟨index, i, p, p', ev, ho, hcy, hc, hpa, hal, hspec, rfl⟩ := hdel
       have hi := (curSlot_spec hc).2.2.1
       have hs := slot_of_set (q := p') hi (afterReply g.m index i p p' ev) rfl j
@@ -296,14 +296,14 @@ confirmation.  The event names the slot that was addressed. -/
 theorem event_iff {fp : FdlParams} {g g' : G} (hI : Inv fp g) {a : UInt8} {t : Telegram}
     (h : gstep fp g (.reply a t) = .ok g') :
     -- a stale reply (`reset_address()` while the request was in flight, F14) is ignored altogether
-    (g'.m = g.m ∧ g'.o = .ignored ∧ g.tainted = true) ∨
+    (g'.m = g.m ∧ g'.o = .ignored) ∨
     ∃ index i p, g.m.cycle = .dx index ∧ curSlot g.m.slots index = some (i, p) ∧ p.address = a ∧
       (g'.m.lastEvents.peripheral = some { index := i, address := a, ev := .dataExchanged } ↔
         ((p.state = .preDataExchange ∨ p.state = .dataExchange) ∧ p.diagInFlight = false ∧
           acceptable .dx p.piI.length t = true)) ∧
       (∀ he, g'.m.lastEvents.peripheral = some he → he.index = i ∧ he.address = a) := by
-  rcases reply_cases hI h with hdel | ⟨_, _, _, _, _, _, _, ht, rfl⟩
-  case inr => exact Or.inl ⟨rfl, rfl, ht⟩
+  rcases reply_cases hI h with hdel | ⟨_, _, _, _, _, _, _, rfl⟩
+  case inr => exact Or.inl ⟨rfl, rfl⟩
   right
   obtain ⟨index, i, p, p', ev, _, hcy, hc, hpa, _, hspec, rfl⟩ := hdel
   refine ⟨index, i, p, hcy, hc, hpa, ?_, ?_⟩
@@ -326,7 +326,7 @@ theorem pi_i_equals_payload {fp : FdlParams} {g g' : G} (hI : Inv fp g) {a : UIn
     (hadr : p.address = a)
     (hst : p.state = .preDataExchange ∨ p.state = .dataExchange) (hdf : p.diagInFlight = false)
     (hacc : acceptable .dx p.piI.length (.data hd pdu) = true) : slotPiI g'.m i = some pdu := by
-  rcases reply_cases hI h with hdel | ⟨index', i', p0, _, hcy', hc', hne, _, _⟩
+  rcases reply_cases hI h with hdel | ⟨index', i', p0, _, hcy', hc', hne, _⟩
   case inr =>
     rw [hcy] at hcy'
     simp only [Cycle.dx.injEq] at hcy'
@@ -355,7 +355,7 @@ theorem no_cross_talk {fp : FdlParams} {g g' : G} (hI : Inv fp g) {a : UInt8} {t
     (h : gstep fp g (.reply a t) = .ok g') :
     ∃ index i p, g.m.cycle = .dx index ∧ curSlot g.m.slots index = some (i, p) ∧
       (p.address = a ∨ g'.m = g.m) ∧ ∀ j, j ≠ i → g'.m.slots[j]? = g.m.slots[j]? := by
-  rcases reply_cases hI h with hdel | ⟨index, i, p, _, hcy, hc, _, _, rfl⟩
+  rcases reply_cases hI h with hdel | ⟨index, i, p, _, hcy, hc, _, rfl⟩
   case inr => exact ⟨index, i, p, hcy, hc, Or.inr rfl, fun _ _ => rfl⟩
   obtain ⟨index, i, p, p', ev, _, hcy, hc, hpa, _, hspec, rfl⟩ := hdel
   refine ⟨index, i, p, hcy, hc, Or.inl hpa, ?_⟩
@@ -386,7 +386,7 @@ theorem stale_reply_ignored {fp : FdlParams} {g g' : G} (hI : Inv fp g) {a : UIn
     (h : gstep fp g (.reply a t) = .ok g')
     {index i : Nat} {p : Peripheral} (hcy : g.m.cycle = .dx index) (hc : curSlot g.m.slots index = some (i, p))
     (hne : p.address ≠ a) : g'.m = g.m ∧ g'.produced = g.produced ∧ g'.o = .ignored ∧ g'.out = none := by
-  rcases reply_cases hI h with ⟨index', i', p0, _, _, _, hcy', hc', hpa, _⟩ | ⟨_, _, _, _, _, _, _, _, rfl⟩
+  rcases reply_cases hI h with ⟨index', i', p0, _, _, _, hcy', hc', hpa, _⟩ | ⟨_, _, _, _, _, _, _, rfl⟩
   · rw [hcy] at hcy'
     simp only [Cycle.dx.injEq] at hcy'
     subst hcy'
@@ -454,12 +454,13 @@ def exCheck : Bool :=
 example : exCheck = true := by decide +kernel
 
 /-- The F14 witness (corpus/dp/07): the address is changed while the Data_Exchange request is in flight;
-the reply of the old address is ignored (`pi_i` stays, no event), the history is inside the contract. -/
+the reply of the old address is ignored (`pi_i` stays, no event), the history is inside the contract and
+— the new address being another one than the outstanding — not `tainted`. -/
 def f14Check : Bool :=
   match grun exFp (G.init exSlots false) (exHistory.dropLast ++ [.resetAddr 1 9]) with
   | .ok g =>
     (match gstep exFp g (.reply 7 (.data ⟨2, 7, none, none, .response .slave .dataLow⟩ [0xa5])) with
-     | .ok g' => g'.o == .ignored && slotPiI g'.m 1 == some [0] && g'.m.lastEvents == g.m.lastEvents && g.tainted
+     | .ok g' => g'.o == .ignored && slotPiI g'.m 1 == some [0] && g'.m.lastEvents == g.m.lastEvents && !g.tainted
      | _ => false)
   | _ => false
 
